@@ -439,6 +439,37 @@ func jobC11(c *rt.Ctx) {
 		}
 	}
 	c.Require("sparse-output-2")
+	// argument lengths as a PRODUCT (a check on the sum of the lengths passes every one-at-a-time sweep):
+	// an error and no output exactly when either length is not 32; never a panic
+	c.Require("length-product")
+	lens := []int{}
+	for l := 0; l <= 40; l++ {
+		lens = append(lens, l)
+	}
+	lens = append(lens, 63, 64, 65)
+	for _, ls := range lens {
+		if !c.Take() {
+			continue
+		}
+		c.Class("length-product")
+		c.Distinct(fmt.Sprintf("lenprod %d", ls), true)
+		for _, lp := range lens {
+			sc := bytes.Repeat([]byte{0x42}, ls)
+			pt := bytes.Repeat([]byte{0x17}, lp)
+			var out []byte
+			var err error
+			pv := func() (pv interface{}) {
+				defer func() { pv = recover() }()
+				out, err = X25519(sc, pt)
+				return nil
+			}()
+			c.Step(1)
+			wantErr := ls != 32 || lp != 32
+			if pv != nil || (err != nil) != wantErr || (wantErr && out != nil) || (!wantErr && len(out) != 32) {
+				c.Violation(fmt.Sprintf("C11 length-product wantErr=%v", wantErr), fmt.Sprintf("X25519 with a %d-byte scalar and a %d-byte point: out=%x err=%v panic=%v", ls, lp, out, err, pv), map[string]interface{}{"scalar_len": ls, "point_len": lp})
+			}
+		}
+	}
 	// in-place calls of the array functions: the output array is also the point (the natural way to
 	// write the RFC 7748 iteration) or the scalar
 	c.Require("array-aliasing")
@@ -579,6 +610,72 @@ func jobC12(c *rt.Ctx) {
 // c12Strings: the key conversion accepts exactly the strings the lenient decoding accepts and
 // returns the canonical (1+y)/(1-y) (used by C12, and by C10 for the "accepted as a point by the
 // key conversion" clause).
+// sparseCheckStrings: y with num(zeta -+ 1) = v * 2^(8 i) for every byte position i, where
+// num = y^2 - 1 (so that y^2 = num + 1 must be a square for y to exist).
+func sparseCheckStrings() [][]byte {
+	var out [][]byte
+	im := ref.SqrtM1
+	negIm := new(big.Int).Sub(ref.P, im)
+	minus1 := badd(ref.P, -1)
+	one := big.NewInt(1)
+	var factors []*big.Int
+	for _, z := range []*big.Int{im, negIm, minus1, one} {
+		for _, d := range []int64{-1, 1} {
+			f := new(big.Int).Add(z, big.NewInt(d))
+			f.Mod(f, ref.P)
+			if f.Sign() != 0 {
+				factors = append(factors, f)
+			}
+		}
+	}
+	try := func(cval, f *big.Int) bool {
+		num := new(big.Int).Mul(cval, new(big.Int).ModInverse(f, ref.P))
+		num.Mod(num, ref.P)
+		y2 := new(big.Int).Add(num, one)
+		y2.Mod(y2, ref.P)
+		y := new(big.Int).ModSqrt(y2, ref.P)
+		if y == nil {
+			return false
+		}
+		for _, yy := range []*big.Int{y, new(big.Int).Sub(ref.P, y)} {
+			for sgn := 0; sgn < 2; sgn++ {
+				b := ref.ToLE(new(big.Int).Mod(yy, ref.P), 32)
+				b[31] |= byte(sgn) << 7
+				out = append(out, b)
+			}
+		}
+		return true
+	}
+	for pos := 0; pos < 32; pos++ {
+		for _, f := range factors {
+			for v := int64(1); v < 256; v++ {
+				if pos == 31 && v >= 128 {
+					break
+				}
+				if try(new(big.Int).Lsh(big.NewInt(v), uint(8*pos)), f) {
+					break
+				}
+			}
+		}
+	}
+	// two-byte values: the same byte at positions i and i + 4k (they cancel when a zero test folds
+	// 32- or 64-bit words with xor instead of or)
+	for i := 0; i < 32; i++ {
+		for j := i + 4; j < 32; j += 4 {
+			for _, f := range factors {
+				for v := int64(1); v < 128; v++ {
+					cval := new(big.Int).Lsh(big.NewInt(v), uint(8*i))
+					cval.Add(cval, new(big.Int).Lsh(big.NewInt(v), uint(8*j)))
+					if try(cval, f) {
+						break
+					}
+				}
+			}
+		}
+	}
+	return out
+}
+
 func c12Strings(c *rt.Ctx, prop string) {
 	c.Require("pub/decodable", "pub/undecodable", "pub/y=1", "pub/noncanonical")
 	var strs [][]byte
@@ -614,6 +711,8 @@ func c12Strings(c *rt.Ctx, prop string) {
 			}
 		}
 	}
+	// strings whose square-root check value is sparse (one non-zero byte, or the same byte at i and i+4k)
+	strs = append(strs, sparseCheckStrings()...)
 	for _, d := range []int64{-1, -2, 0, 1, 2} {
 		for s := 0; s < 2; s++ {
 			b := ref.ToLE(badd(ref.P, d), 32)
